@@ -548,7 +548,13 @@ impl Monitor for HoldMonitor {
                 // the station's own reference for the previous token is at most one poll period
                 // (plus RX chunking) later than the wire; its clock may be skewed
                 let ttr = u64::from(cfg.ttr) * BIT;
-                let p = w.us(cfg.p_max_us + cfg.rx_chunk_us + 2);
+                // (a PHY that reports the end of the station's own previous transmission late keeps
+                // it from looking at its receive buffer that long)
+                let late_tx_done = match cfg.tx_done {
+                    crate::scenario::TxDoneCfg::LateUs(d) => d,
+                    _ => 0,
+                };
+                let p = w.us(cfg.p_max_us + cfg.rx_chunk_us + late_tx_done + 2);
                 let skew = (u128::from(ttr) * u128::from(cfg.skew_ppm.unsigned_abs()) / 1_000_000) as u64 + w.us(2);
                 let deadline = wp + ttr + p + skew;
                 self.n_reqs_checked += 1;
